@@ -32,10 +32,11 @@
        loop_write -> _packet_write: popleft / send until empty    LPop, LSend p
      and, optionally, the body of reconnect() executed by the loop thread before it enters _loop():
        self._sock_close()                                         RClose
-       for pkt in self._out_packet: ...                           RIterStart, RIter ver k
-       self._out_packet.clear()                                   RClear
+       while True: pkt = self._out_packet.popleft() ... mark      RDrain  (one popleft per step, until IndexError)
        self._sock = self._create_socket()                         RSock
-       _send_connect -> _packet_queue: append(CONNECT), pipe send RConnect, RWake
+       _send_connect -> _packet_queue: appendleft(CONNECT), pipe  RConnect, RWake
+     (code as of /repo commits c6905fd and 0ed8c5c; the earlier `for pkt in deque` / `clear()` / `append(CONNECT)`
+      version was refuted: findings F-C07a, b, d, now fixed)
 *)
 From PahoV Require Import Base.Prelude Codec.Mid.
 
@@ -62,14 +63,12 @@ Record pub : Type := mkPub {
 (* ------------------------------------------------------------------ loop thread *)
 Inductive lpc : Type :=
 | LWant | LSelect (wl : bool) | LDrain | LPop | LSend (p : pkt)
-| RClose | RIterStart | RIter (ver : nat) (k : nat) | RClear | RSock | RConnect | RWake
-| LCrashed.
+| RClose | RDrain | RSock | RConnect | RWake.
 
 Record conf : Type := mkConf {
   last_mid : Z;
   mid_lock : option nat;           (* owner of _mid_generate_mutex *)
   out_packet : list pkt;           (* the deque, head first *)
-  qver : nat;                      (* the deque's mutation counter (what its iterators check) *)
   pipe : nat;                      (* bytes in the wake pipe *)
   sock : option Z;                 (* current connection *)
   nconn : Z;                       (* id the next connection will get *)
@@ -77,7 +76,6 @@ Record conf : Type := mkConf {
   loop : lpc;
   pubs : list pub;
   timeouts : nat;                  (* ghost: select() timeouts consumed *)
-  crashed : bool;                  (* RuntimeError: deque mutated during iteration *)
   alloc_log : list (nat * nat * Z);(* ghost: (publisher, message index, mid) in the order _mid_generate returned them *)
   marked : list pkt                (* ghost: packets reconnect() marked as lost (rc = MQTT_ERR_CONN_LOST, published) *)
 }.
@@ -90,8 +88,8 @@ Fixpoint upd {A : Type} (i : nat) (x : A) (l : list A) : list A :=
   end.
 
 Definition set_pub (c : conf) (i : nat) (p : pub) : conf :=
-  mkConf (last_mid c) (mid_lock c) (out_packet c) (qver c) (pipe c) (sock c) (nconn c) (wire c) (loop c)
-         (upd i p (pubs c)) (timeouts c) (crashed c) (alloc_log c) (marked c).
+  mkConf (last_mid c) (mid_lock c) (out_packet c) (pipe c) (sock c) (nconn c) (wire c) (loop c)
+         (upd i p (pubs c)) (timeouts c) (alloc_log c) (marked c).
 
 Definition with_pc (p : pub) (k : ppc) : pub :=
   mkPub k (tmp p) (ret p) (idx p) (todo p) (results p) (sentp p).
@@ -108,27 +106,27 @@ Definition pstep (i : nat) (p : pub) (c : conf) : option conf :=
       match mid_lock c with
       | Some _ => None
       | None =>
-          Some (mkConf (last_mid c) (Some i) (out_packet c) (qver c) (pipe c) (sock c) (nconn c) (wire c) (loop c)
-                       (upd i (with_pc p PRd1) (pubs c)) (timeouts c) (crashed c) (alloc_log c) (marked c))
+          Some (mkConf (last_mid c) (Some i) (out_packet c) (pipe c) (sock c) (nconn c) (wire c) (loop c)
+                       (upd i (with_pc p PRd1) (pubs c)) (timeouts c) (alloc_log c) (marked c))
       end
   | PRd1 =>
       Some (set_pub c i (mkPub PWr1 (last_mid c) (ret p) (idx p) (todo p) (results p) (sentp p)))
   | PWr1 =>
-      Some (mkConf (tmp p + 1) (mid_lock c) (out_packet c) (qver c) (pipe c) (sock c) (nconn c) (wire c) (loop c)
-                   (upd i (with_pc p PRd2) (pubs c)) (timeouts c) (crashed c) (alloc_log c) (marked c))
+      Some (mkConf (tmp p + 1) (mid_lock c) (out_packet c) (pipe c) (sock c) (nconn c) (wire c) (loop c)
+                   (upd i (with_pc p PRd2) (pubs c)) (timeouts c) (alloc_log c) (marked c))
   | PRd2 =>
       Some (set_pub c i (mkPub (if last_mid c =? 65536 then PWrap else PRd3)
                                (last_mid c) (ret p) (idx p) (todo p) (results p) (sentp p)))
   | PWrap =>
-      Some (mkConf 1 (mid_lock c) (out_packet c) (qver c) (pipe c) (sock c) (nconn c) (wire c) (loop c)
-                   (upd i (with_pc p PRd3) (pubs c)) (timeouts c) (crashed c) (alloc_log c) (marked c))
+      Some (mkConf 1 (mid_lock c) (out_packet c) (pipe c) (sock c) (nconn c) (wire c) (loop c)
+                   (upd i (with_pc p PRd3) (pubs c)) (timeouts c) (alloc_log c) (marked c))
   | PRd3 =>
-      Some (mkConf (last_mid c) (mid_lock c) (out_packet c) (qver c) (pipe c) (sock c) (nconn c) (wire c) (loop c)
+      Some (mkConf (last_mid c) (mid_lock c) (out_packet c) (pipe c) (sock c) (nconn c) (wire c) (loop c)
                    (upd i (mkPub PRel (tmp p) (last_mid c) (idx p) (todo p) (results p) (sentp p)) (pubs c))
-                   (timeouts c) (crashed c) (alloc_log c ++ [(i, idx p, last_mid c)]) (marked c))
+                   (timeouts c) (alloc_log c ++ [(i, idx p, last_mid c)]) (marked c))
   | PRel =>
-      Some (mkConf (last_mid c) None (out_packet c) (qver c) (pipe c) (sock c) (nconn c) (wire c) (loop c)
-                   (upd i (with_pc p PSock) (pubs c)) (timeouts c) (crashed c) (alloc_log c) (marked c))
+      Some (mkConf (last_mid c) None (out_packet c) (pipe c) (sock c) (nconn c) (wire c) (loop c)
+                   (upd i (with_pc p PSock) (pubs c)) (timeouts c) (alloc_log c) (marked c))
   | PSock =>
       match sock c with
       | None => Some (set_pub c i (next_msg p false))
@@ -136,13 +134,13 @@ Definition pstep (i : nat) (p : pub) (c : conf) : option conf :=
       end
   | PAppend =>
       let k := Publish i (idx p) (ret p) in
-      Some (mkConf (last_mid c) (mid_lock c) (out_packet c ++ [k]) (S (qver c)) (pipe c) (sock c) (nconn c) (wire c)
+      Some (mkConf (last_mid c) (mid_lock c) (out_packet c ++ [k]) (pipe c) (sock c) (nconn c) (wire c)
                    (loop c)
                    (upd i (mkPub PPipe (tmp p) (ret p) (idx p) (todo p) (results p) (sentp p ++ [k])) (pubs c))
-                   (timeouts c) (crashed c) (alloc_log c) (marked c))
+                   (timeouts c) (alloc_log c) (marked c))
   | PPipe =>
-      Some (mkConf (last_mid c) (mid_lock c) (out_packet c) (qver c) (S (pipe c)) (sock c) (nconn c) (wire c) (loop c)
-                   (upd i (with_pc p PRet) (pubs c)) (timeouts c) (crashed c) (alloc_log c) (marked c))
+      Some (mkConf (last_mid c) (mid_lock c) (out_packet c) (S (pipe c)) (sock c) (nconn c) (wire c) (loop c)
+                   (upd i (with_pc p PRet) (pubs c)) (timeouts c) (alloc_log c) (marked c))
   | PRet => Some (set_pub c i (next_msg p true))
   | PDone => None
   end.
@@ -151,8 +149,8 @@ Definition pstep (i : nat) (p : pub) (c : conf) : option conf :=
 Definition recv_max : nat := Z.to_nat 10000.
 
 Definition set_loop (c : conf) (l : lpc) : conf :=
-  mkConf (last_mid c) (mid_lock c) (out_packet c) (qver c) (pipe c) (sock c) (nconn c) (wire c) l
-         (pubs c) (timeouts c) (crashed c) (alloc_log c) (marked c).
+  mkConf (last_mid c) (mid_lock c) (out_packet c) (pipe c) (sock c) (nconn c) (wire c) l
+         (pubs c) (timeouts c) (alloc_log c) (marked c).
 
 Definition is_nil {A : Type} (l : list A) : bool := match l with [] => true | _ => false end.
 
@@ -164,56 +162,47 @@ Definition lstep (c : conf) : option conf :=
       else if wl then Some (set_loop c LPop)
       else None                                              (* parked in select() *)
   | LDrain =>
-      Some (mkConf (last_mid c) (mid_lock c) (out_packet c) (qver c) (pipe c - Nat.min (pipe c) recv_max)%nat (sock c)
-                   (nconn c) (wire c) LPop (pubs c) (timeouts c) (crashed c) (alloc_log c) (marked c))
+      Some (mkConf (last_mid c) (mid_lock c) (out_packet c) (pipe c - Nat.min (pipe c) recv_max)%nat (sock c)
+                   (nconn c) (wire c) LPop (pubs c) (timeouts c) (alloc_log c) (marked c))
   | LPop =>
       match out_packet c with
       | [] => Some (set_loop c LWant)                        (* IndexError: _packet_write returns *)
       | p :: q =>
-          Some (mkConf (last_mid c) (mid_lock c) q (S (qver c)) (pipe c) (sock c) (nconn c) (wire c) (LSend p)
-                       (pubs c) (timeouts c) (crashed c) (alloc_log c) (marked c))
+          Some (mkConf (last_mid c) (mid_lock c) q (pipe c) (sock c) (nconn c) (wire c) (LSend p)
+                       (pubs c) (timeouts c) (alloc_log c) (marked c))
       end
   | LSend p =>
       match sock c with
       | Some k =>
-          Some (mkConf (last_mid c) (mid_lock c) (out_packet c) (qver c) (pipe c) (sock c) (nconn c)
-                       (wire c ++ [(k, p)]) LPop (pubs c) (timeouts c) (crashed c) (alloc_log c) (marked c))
+          Some (mkConf (last_mid c) (mid_lock c) (out_packet c) (pipe c) (sock c) (nconn c)
+                       (wire c ++ [(k, p)]) LPop (pubs c) (timeouts c) (alloc_log c) (marked c))
       | None =>                                              (* no socket: appendleft, give up *)
-          Some (mkConf (last_mid c) (mid_lock c) (p :: out_packet c) (S (qver c)) (pipe c) (sock c) (nconn c)
-                       (wire c) LWant (pubs c) (timeouts c) (crashed c) (alloc_log c) (marked c))
+          Some (mkConf (last_mid c) (mid_lock c) (p :: out_packet c) (pipe c) (sock c) (nconn c)
+                       (wire c) LWant (pubs c) (timeouts c) (alloc_log c) (marked c))
       end
   | RClose =>
-      Some (mkConf (last_mid c) (mid_lock c) (out_packet c) (qver c) (pipe c) None (nconn c) (wire c) RIterStart
-                   (pubs c) (timeouts c) (crashed c) (alloc_log c) (marked c))
-  | RIterStart =>                                            (* the packets the loop is going to visit and mark *)
-      Some (mkConf (last_mid c) (mid_lock c) (out_packet c) (qver c) (pipe c) (sock c) (nconn c) (wire c)
-                   (RIter (qver c) (length (out_packet c))) (pubs c) (timeouts c) (crashed c) (alloc_log c)
-                   (marked c ++ out_packet c))
-  | RIter ver k =>
-      if negb (Nat.eqb (qver c) ver) then
-        Some (mkConf (last_mid c) (mid_lock c) (out_packet c) (qver c) (pipe c) (sock c) (nconn c) (wire c) LCrashed
-                     (pubs c) (timeouts c) true (alloc_log c) (marked c))
-      else match k with
-           | O => Some (set_loop c RClear)
-           | S k' => Some (set_loop c (RIter ver k'))
-           end
-  | RClear =>
-      Some (mkConf (last_mid c) (mid_lock c) [] (S (qver c)) (pipe c) (sock c) (nconn c) (wire c) RSock
-                   (pubs c) (timeouts c) (crashed c) (alloc_log c) (marked c))
+      Some (mkConf (last_mid c) (mid_lock c) (out_packet c) (pipe c) None (nconn c) (wire c) RDrain
+                   (pubs c) (timeouts c) (alloc_log c) (marked c))
+  | RDrain =>                                                (* popleft until IndexError; every packet taken is marked *)
+      match out_packet c with
+      | [] => Some (set_loop c RSock)
+      | p :: q =>
+          Some (mkConf (last_mid c) (mid_lock c) q (pipe c) (sock c) (nconn c) (wire c) RDrain
+                       (pubs c) (timeouts c) (alloc_log c) (marked c ++ [p]))
+      end
   | RSock =>
-      Some (mkConf (last_mid c) (mid_lock c) (out_packet c) (qver c) (pipe c) (Some (nconn c)) (nconn c + 1) (wire c)
-                   RConnect (pubs c) (timeouts c) (crashed c) (alloc_log c) (marked c))
-  | RConnect =>
+      Some (mkConf (last_mid c) (mid_lock c) (out_packet c) (pipe c) (Some (nconn c)) (nconn c + 1) (wire c)
+                   RConnect (pubs c) (timeouts c) (alloc_log c) (marked c))
+  | RConnect =>                                              (* _packet_queue(CONNECT): appendleft *)
       match sock c with
       | Some k =>
-          Some (mkConf (last_mid c) (mid_lock c) (out_packet c ++ [Connect k]) (S (qver c)) (pipe c) (sock c) (nconn c)
-                       (wire c) RWake (pubs c) (timeouts c) (crashed c) (alloc_log c) (marked c))
+          Some (mkConf (last_mid c) (mid_lock c) (Connect k :: out_packet c) (pipe c) (sock c) (nconn c)
+                       (wire c) RWake (pubs c) (timeouts c) (alloc_log c) (marked c))
       | None => None
       end
   | RWake =>
-      Some (mkConf (last_mid c) (mid_lock c) (out_packet c) (qver c) (S (pipe c)) (sock c) (nconn c) (wire c) LWant
-                   (pubs c) (timeouts c) (crashed c) (alloc_log c) (marked c))
-  | LCrashed => None
+      Some (mkConf (last_mid c) (mid_lock c) (out_packet c) (S (pipe c)) (sock c) (nconn c) (wire c) LWant
+                   (pubs c) (timeouts c) (alloc_log c) (marked c))
   end.
 
 (* select() times out: only while the loop thread is parked with nothing ready *)
@@ -221,8 +210,8 @@ Definition timeout_step (c : conf) : option conf :=
   match loop c with
   | LSelect false =>
       if (0 <? pipe c)%nat then None
-      else Some (mkConf (last_mid c) (mid_lock c) (out_packet c) (qver c) (pipe c) (sock c) (nconn c) (wire c) LWant
-                        (pubs c) (S (timeouts c)) (crashed c) (alloc_log c) (marked c))
+      else Some (mkConf (last_mid c) (mid_lock c) (out_packet c) (pipe c) (sock c) (nconn c) (wire c) LWant
+                        (pubs c) (S (timeouts c)) (alloc_log c) (marked c))
   | _ => None
   end.
 
@@ -258,7 +247,7 @@ Definition new_pub (n : nat) : pub :=
 
 (* connection 1 established, CONNECT already written, [nmsgs] = messages per publisher *)
 Definition init (m0 : Z) (l0 : lpc) (pipe0 : nat) (nmsgs : list nat) : conf :=
-  mkConf m0 None [] O pipe0 (Some 1) 2 [(1, Connect 1)] l0 (map new_pub nmsgs) O false [] [].
+  mkConf m0 None [] pipe0 (Some 1) 2 [(1, Connect 1)] l0 (map new_pub nmsgs) O [] [].
 
 Definition init_steady (m0 : Z) (nmsgs : list nat) : conf := init m0 LWant O nmsgs.
 Definition init_reconnect (m0 : Z) (nmsgs : list nat) : conf := init m0 RClose O nmsgs.
@@ -299,16 +288,6 @@ Fixpoint wire_ok_from (pre : list (Z * pkt)) (w : list (Z * pkt)) : bool :=
   end.
 Definition wire_ok (w : list (Z * pkt)) : bool := wire_ok_from [] w.
 
-(* the racing program points of finding F-C07a / F-C07b *)
-Definition in_window_a (l : lpc) : bool := match l with RSock | RConnect => true | _ => false end.
-Definition in_window_b (l : lpc) : bool := match l with RIter _ _ => true | _ => false end.
-Definition race_a (c : conf) : bool := in_window_a (loop c) && existsb (at_pc PAppend) (pubs c).
-Definition race_b (c : conf) : bool := in_window_b (loop c) && existsb (at_pc PAppend) (pubs c).
-
-(* F-C07d: a packet appended after reconnect() took its marking snapshot and before clear() *)
-Definition in_window_d (l : lpc) : bool := match l with RIter _ _ | RClear => true | _ => false end.
-Definition race_d (c : conf) : bool := in_window_d (loop c) && existsb (at_pc PAppend) (pubs c).
-
 Definition pkt_eqb (a b : pkt) : bool :=
   match a, b with
   | Connect x, Connect y => x =? y
@@ -320,14 +299,6 @@ Definition pkt_eqb (a b : pkt) : bool :=
 Definition conserved (c : conf) : bool :=
   forallb (fun p => forallb (fun x => existsb (pkt_eqb x) (flight c ++ marked c)) (sentp p)) (pubs c).
 
-(* no configuration visited by the schedule satisfies [bad] *)
-Fixpoint safe_run (bad : conf -> bool) (s : list tid) (c : conf) : bool :=
-  negb (bad c) &&
-  match s with
-  | [] => true
-  | t :: s' => safe_run bad s' (step_or_skip t c)
-  end.
-
 (* ------------------------------------------------------------------ integer interface for the correspondence *)
 Definition enc_pkt (p : pkt) : list Z :=
   match p with
@@ -338,8 +309,7 @@ Definition enc_pkt (p : pkt) : list Z :=
 Definition lpc_code (l : lpc) : Z :=
   match l with
   | LWant => 0 | LSelect false => 1 | LSelect true => 2 | LDrain => 3 | LPop => 4 | LSend _ => 5
-  | RClose => 10 | RIterStart => 11 | RIter _ _ => 12 | RClear => 13 | RSock => 14 | RConnect => 15 | RWake => 16
-  | LCrashed => 99
+  | RClose => 10 | RDrain => 11 | RSock => 14 | RConnect => 15 | RWake => 16
   end.
 
 Definition lpc_of_code (z : Z) : lpc :=
@@ -360,7 +330,7 @@ Definition enc_pub (p : pub) : list Z :=
   flat_map (fun r : nat * Z * bool => let '(i, m, q) := r in [Z.of_nat i; m; if q then 1 else 0]) (results p).
 
 (* input : m0, loop start code, pipe0, n, nmsg_1 .. nmsg_n, tokens (0 Loop, -1 Timeout, k>=1 Pub (k-1))
-   output: skipped, crashed, timeouts, loop pc code, pipe, last_mid,
+   output: skipped, 0, timeouts, loop pc code, pipe, last_mid,
            #wire, (conn, kind, owner, idx, mid)*, #queue, (kind, owner, idx, mid)*, per publisher: #results, (idx, mid, queued)* *)
 Definition entry_sched (args : list Z) : list Z :=
   match args with
@@ -369,7 +339,7 @@ Definition entry_sched (args : list Z) : list Z :=
       let c0 := init m0 (lpc_of_code l0) (Z.to_nat pipe0) (map Z.to_nat ns) in
       let s := map tid_of_code toks in
       let c := sched_run s c0 in
-      [Z.of_nat (sched_skipped s c0); if crashed c then 1 else 0; Z.of_nat (timeouts c); lpc_code (loop c);
+      [Z.of_nat (sched_skipped s c0); 0; Z.of_nat (timeouts c); lpc_code (loop c);
        Z.of_nat (pipe c); last_mid c]
       ++ Z.of_nat (length (wire c)) :: flat_map (fun kp => fst kp :: enc_pkt (snd kp)) (wire c)
       ++ Z.of_nat (length (in_send (loop c) ++ out_packet c)) :: flat_map enc_pkt (in_send (loop c) ++ out_packet c)
